@@ -22,7 +22,7 @@ META = {
     'outside': ['residual monotone in repeats: each lstsq minimises over a set containing the previous iterate (consequence of the decided consistency + the lstsq contract); '
                 'the inequality is not solver-checked', 'rounding, rcond-regularisation effects'],
     'assumptions': ['SVD/solve/lstsq contracts', 's > 0 where MANDy divides by the singular values'],
-    'tv_per_scenario': {'quick': 0, 'thorough': 0},
+    'tv_per_scenario': {'quick': 1000, 'thorough': 1000},
 }
 
 
